@@ -529,7 +529,8 @@ pub fn gen_probe<P: Pad>(r: &mut RandomDir, w: &mut World<P>) {
 /// untraced field, a uniquely owned helper that holds a Weak to a member of the cycle (its finalizer /
 /// destructor runs inside the destructor phase of the collection that reclaims the cycle).
 pub fn gen_scenario<P: Pad>(r: &mut RandomDir, w: &mut World<P>) {
-    if !(r.cfg.weak && w.np >= 1 && w.nw >= 1 && w.ns >= 1) {
+    if !(r.cfg.weak && w.np >= 1 && w.nw >= 1 && w.ns >= 1) || r.rng.gen_bool(0.5) {
+        gen_dense_garbage(r, w);
         return;
     }
     let rng = &mut r.rng;
@@ -555,4 +556,41 @@ pub fn gen_scenario<P: Pad>(r: &mut RandomDir, w: &mut World<P>) {
     q.push_back(json!({"e": "call", "op": "drop", "o": if first { a } else { b }}));
     q.push_back(json!({"e": "call", "op": "drop", "o": if first { b } else { a }}));
     q.push_back(json!({"e": "call", "op": "collect"}));
+}
+
+/// A small dense garbage graph: k objects, every traced field pointing to a random member (shared nodes, several
+/// cycles through one node, in-degree above one), handles released in a random order, then collections.
+pub fn gen_dense_garbage<P: Pad>(r: &mut RandomDir, w: &mut World<P>) {
+    if w.ns == 0 {
+        return;
+    }
+    let rng = &mut r.rng;
+    let k = rng.gen_range(3..=5u32);
+    let ids: Vec<u32> = (0..k).map(|i| w.next_id + i).collect();
+    let q = &mut r.queue;
+    for o in &ids {
+        q.push_back(json!({"e": "call", "op": "new", "o": o}));
+    }
+    for a in &ids {
+        for i in 1..=w.ns {
+            if rng.gen_bool(0.8) {
+                let b = ids[rng.gen_range(0..ids.len())];
+                q.push_back(json!({"e": "call", "op": "set", "a": a, "k": "s", "i": i, "b": b}));
+            }
+        }
+    }
+    let mut order = ids.clone();
+    for i in (1..order.len()).rev() {
+        order.swap(i, rng.gen_range(0..=i));
+    }
+    // sometimes one member stays held by the program: nothing reachable from it may be reclaimed
+    let keep = if rng.gen_bool(0.3) { order.pop() } else { None };
+    for o in &order {
+        q.push_back(json!({"e": "call", "op": "drop", "o": o}));
+    }
+    q.push_back(json!({"e": "call", "op": "collect"}));
+    if let Some(o) = keep {
+        q.push_back(json!({"e": "call", "op": "drop", "o": o}));
+        q.push_back(json!({"e": "call", "op": "collect"}));
+    }
 }
